@@ -19,6 +19,7 @@
 package bfe_spdy
 
 import (
+	"bytes"
 	"compress/zlib"
 	"encoding/binary"
 	"fmt"
@@ -206,6 +207,19 @@ func (f *Framer) parseControlFrame(version uint16, frameType ControlFrameType) (
 	return cframe, nil
 }
 
+// readHeaderField reads a length-prefixed name or value. The buffer grows with the data
+// that actually arrives, so a forged length cannot make us allocate what the peer never sends.
+func readHeaderField(r io.Reader, length uint32) ([]byte, error) {
+	var buf bytes.Buffer
+	if _, err := io.CopyN(&buf, r, int64(length)); err != nil {
+		if err == io.EOF && buf.Len() > 0 {
+			err = io.ErrUnexpectedEOF
+		}
+		return nil, err
+	}
+	return buf.Bytes(), nil
+}
+
 func parseHeaderValueBlock(r io.Reader, streamId StreamId) (http.Header, uint32, error) {
 	headerLen := uint32(0) // length of header decompressed
 
@@ -225,8 +239,8 @@ func parseHeaderValueBlock(r io.Reader, streamId StreamId) (http.Header, uint32,
 			return nil, 0, err
 		}
 		headerLen += length
-		nameBytes := make([]byte, length)
-		if _, err := io.ReadFull(r, nameBytes); err != nil {
+		nameBytes, err := readHeaderField(r, length)
+		if err != nil {
 			return nil, 0, err
 		}
 		name := string(nameBytes)
@@ -241,8 +255,8 @@ func parseHeaderValueBlock(r io.Reader, streamId StreamId) (http.Header, uint32,
 			return nil, 0, err
 		}
 		headerLen += length
-		value := make([]byte, length)
-		if _, err := io.ReadFull(r, value); err != nil {
+		value, err := readHeaderField(r, length)
+		if err != nil {
 			return nil, 0, err
 		}
 		valueList := strings.Split(string(value), headerValueSeparator)
